@@ -101,8 +101,15 @@ func persistPoints(fn *ssa.Function) []ssa.Instruction {
 		if ci.IsFunc("os", "WriteFile") {
 			// the sidecar write: its content derives from mustJson(meta)
 			if len(ci.Common.Args) >= 2 {
-				if call, ok := core.Resolve(ci.Common.Args[1]).(*ssa.Call); ok && core.Call(call).IsFunc(core.PkgGcsemu, "mustJson") {
-					out = append(out, ci.Instr)
+				data := core.Resolve(ci.Common.Args[1])
+				if ex, isEx := data.(*ssa.Extract); isEx {
+					data = ex.Tuple // json.Marshal…(meta) inlined: (bytes, err)
+				}
+				if call, ok := data.(*ssa.Call); ok {
+					cc := core.Call(call)
+					if cc.IsFunc(core.PkgGcsemu, "mustJson") || cc.IsFunc("encoding/json", "Marshal") || cc.IsFunc("encoding/json", "MarshalIndent") {
+						out = append(out, ci.Instr)
+					}
 				}
 			}
 		}
@@ -572,6 +579,12 @@ func R22() Rule {
 							strict = true
 						}
 					}
+					// containment in the bucket directory (`strings.HasPrefix(dir, bucketDir)`) holds for the bucket directory itself
+					for _, fct := range core.FactsAt(ci.Instr.Block()) {
+						if hp, isC := core.Resolve(fct.Cond).(*ssa.Call); isC && fct.Polarity && core.Call(hp).IsFunc("strings", "HasPrefix") && contentPath(P, hp.Call.Args[1], nil) {
+							loose = true
+						}
+					}
 					if strict {
 						c.Ok("R22", "filestore.Delete/pruning-stops-below-the-bucket", ci.Instr.Pos(), true, "directory removal is guarded by a strict comparison with the bucket directory")
 					} else if loose {
@@ -778,6 +791,52 @@ var panicTable = map[string]string{
 	"(*countedLock).Unlock":             "API misuse: unlock of an unheld lock (documented)",
 }
 
+// panicOnTrustedFailure: the panic's argument is the error of a call whose failure is not
+// request-controlled — a leveldb operation (storage I/O) or the marshalling of an in-memory
+// value — and the panic sits on that error's non-nil edge.
+func panicOnTrustedFailure(x *ssa.Panic) (string, bool) {
+	v := ssa.Value(x.X)
+	for i := 0; i < 4; i++ {
+		switch y := v.(type) {
+		case *ssa.MakeInterface:
+			v = y.X
+			continue
+		case *ssa.ChangeInterface:
+			v = y.X
+			continue
+		}
+		break
+	}
+	v = core.Resolve(v)
+	var call *ssa.Call
+	switch y := v.(type) {
+	case *ssa.Extract:
+		call, _ = y.Tuple.(*ssa.Call)
+	case *ssa.Call:
+		call = y
+	}
+	if call == nil || !isErrorType(v.Type()) {
+		return "", false
+	}
+	g := call.Call.StaticCallee()
+	if g == nil || g.Pkg == nil {
+		return "", false
+	}
+	if !errNonNilEdge(call, x.Block()) {
+		return "", false
+	}
+	path := g.Pkg.Pkg.Path()
+	switch {
+	case strings.HasPrefix(path, "github.com/syndtr/goleveldb"):
+		return "storage I/O failure (" + g.Name() + ")", true
+	case path == "encoding/json" && (g.Name() == "Marshal" || g.Name() == "MarshalIndent"):
+		return "marshal of an in-memory value", true
+	case path == "google.golang.org/protobuf/proto" && g.Name() == "Marshal":
+		return "marshal of an in-memory message", true
+	}
+	return "", false
+}
+
 func R25() Rule {
 	return Rule{Name: "R25", Run: func(c *core.Ctx) {
 		P := c.P
@@ -807,6 +866,10 @@ func R25() Rule {
 							construct := fmt.Sprintf("panic/%s#%d", core.FuncName(fn), k)
 							if why, ok := tableOrHelperOf(P, core.Root(fn), panicTable); ok {
 								c.Ok("R25", construct, x.Pos(), false, "tabled: %s", why)
+							} else if why, ok := panicOnTrustedFailure(x); ok {
+								// the reason travels with the code: what failed is a storage engine call or the
+								// marshalling of an in-memory value, wherever the helper that did it was inlined
+								c.Ok("R25", construct, x.Pos(), false, "reasoned by its cause: %s", why)
 							} else {
 								c.Bad("R25", construct, x.Pos(), "explicit panic in %s, which is not in the table of reasoned panics: if a request can reach it, it kills the gRPC process / the HTTP connection", root)
 							}
